@@ -117,6 +117,8 @@ def main():
             else:
                 cases = mod.corpus_cases() if hasattr(mod, "corpus_cases") else []
                 cases += mod.cases(rng, tier, stats)
+            if hasattr(mod, "fix_root"):
+                mod.fix_root(cases, root)
             results = C.run_cases(cases, root)
             if hasattr(mod, "extra_checks"):
                 for kind, name, text, info in mod.extra_checks(rng, tier, stats, root):
